@@ -95,6 +95,11 @@ func buildC10(tier string) sim.Scenario {
 			audioGapFrom = int64(5000 + tp.Choose(20000))
 			audioGapTo = audioGapFrom + int64(1000+tp.Choose(9000))
 		}
+		vanishAt := int64(-1) // disk mode: at this media time the oldest listed segment's file disappears behind the server's back
+		if disk && tp.OneIn(3) {
+			vanishAt = int64(22000 + tp.Choose(12000))
+		}
+		vanished := map[int]bool{}
 		nReaders := 1 + tp.Choose(3)
 		readerDelay := make([]time.Duration, nReaders)
 		for i := range readerDelay {
@@ -159,9 +164,12 @@ func buildC10(tier string) sim.Scenario {
 					w.Fail("C10/playlist", "EXT-X-TARGETDURATION %d is below the EXTINF %.3f of segment %d", pl.TargetDuration, e.Duration, seq)
 					return
 				}
+				if vanished[seq] {
+					continue // the harness removed this file itself
+				}
 				rd, size, err := hl.Segment(seq)
 				if err != nil {
-					w.Fail("C10/playlist", "listed segment %d does not resolve: %v", seq, err)
+					w.Fail("C10/playlist", "listed segment %d does not resolve: %s", seq, strings.ReplaceAll(err.Error(), dir, "<hlspath>"))
 					return
 				}
 				mu.Lock()
@@ -233,6 +241,10 @@ func buildC10(tier string) sim.Scenario {
 						w.Sleep(time.Second)
 						continue
 					}
+					if e := c10PlaylistShape(pl); e != "" {
+						w.Fail("C10/playlist", "playlist fetched by a segment reader: %s\n%s", e, body)
+						return
+					}
 					e := pl.Entries[w.Tape.Choose(len(pl.Entries))]
 					m := c10URI.FindStringSubmatch(e.URI)
 					if m == nil {
@@ -296,6 +308,10 @@ func buildC10(tier string) sim.Scenario {
 							return
 						}
 					}
+					if e := c10PlaylistShape(pl); e != "" {
+						w.Fail("C10/playlist", "playlist served over HTTP (token %s): %s\n%s", token, e, body)
+						return
+					}
 					w.Sleep(time.Duration(200+w.Tape.Choose(1500)) * time.Millisecond)
 				}
 			})
@@ -319,6 +335,19 @@ func buildC10(tier string) sim.Scenario {
 				s.WriteFrame(&codec.Frame{MediaType: codec.MediaTypeAudio, Dts: t * 1e6, Pts: t * 1e6, Payload: au})
 			}
 			w.Sleep(time.Duration(interval) * time.Millisecond)
+			if vanishAt >= 0 && t >= vanishAt && lastFirst > 0 {
+				// the oldest listed segment's file vanishes (operator clean-up, tmp reaper): the server's own delete at
+				// the next rollover fails and is retried later; nothing else may be affected
+				ents, _ := os.ReadDir(dir)
+				for _, e := range ents {
+					if strings.HasSuffix(e.Name(), fmt.Sprintf("_%d.ts", lastFirst)) {
+						os.Remove(dir + "/" + e.Name())
+						vanished[lastFirst] = true
+						w.Fault("segment-file-vanished")
+					}
+				}
+				vanishAt = -1
+			}
 			checkPlaylist("chk")
 		}
 		stop = true
@@ -347,6 +376,13 @@ func buildC10(tier string) sim.Scenario {
 				return
 			}
 			firstVideo := true
+			if w.Verbose() { // replays: say what each segment holds
+				desc := ""
+				for _, pes := range ts.PES {
+					desc += fmt.Sprintf(" %d@%d", pes.PID, pes.PTS/90)
+				}
+				w.Logf("segment %d:%s", seq, desc)
+			}
 			for _, pes := range ts.PES {
 				if pes.PID == 256 {
 					nals, err := oracle.SplitAnnexB(pes.ES)
@@ -432,6 +468,32 @@ type c10Src struct {
 	key   bool
 	data  []byte
 	pts   int64
+}
+
+// c10PlaylistShape checks what every served playlist must satisfy on its own.
+func c10PlaylistShape(pl *oracle.M3U8) string {
+	if len(pl.Entries) != 3 {
+		return fmt.Sprintf("lists %d segments, expected exactly three", len(pl.Entries))
+	}
+	prev := -1
+	for i, e := range pl.Entries {
+		m := c10URI.FindStringSubmatch(e.URI)
+		if m == nil {
+			return fmt.Sprintf("entry %d has URI %q", i, e.URI)
+		}
+		seq, _ := strconv.Atoi(m[1])
+		if i == 0 && seq != pl.MediaSequence {
+			return fmt.Sprintf("EXT-X-MEDIA-SEQUENCE is %d, the first listed segment is %d", pl.MediaSequence, seq)
+		}
+		if prev >= 0 && seq != prev+1 {
+			return fmt.Sprintf("listed sequence numbers are not consecutive: %d then %d", prev, seq)
+		}
+		prev = seq
+		if float64(pl.TargetDuration) < e.Duration {
+			return fmt.Sprintf("EXT-X-TARGETDURATION %d is below the EXTINF %.3f of segment %d", pl.TargetDuration, e.Duration, seq)
+		}
+	}
+	return ""
 }
 
 // nextOf returns the index of the next frame of the same kind after i.
